@@ -17,13 +17,14 @@ ID = "C15"
 LEVEL = "fault_enumeration"
 SHARDS = {"quick": 8, "thorough": 16}
 RULE = ("cases = (job of 1..25 lines from a small G-code grammar with "
-        "trailing ';' and inline '( )' comments, comment-only and blank lines; "
+        "trailing ';' and inline or leading '( )' comments, comment-only and blank lines; "
         "set of corrupted transmission indices (first transmissions and "
         "resends alike, so repeated corruption of a resent line is a run); "
         "per-reply latency 0..6 empty polls; resend dialect Marlin 'Resend: N'"
         "+ok / 'Resend:N'+ok / Teacup 'rs N'; greeting 'start' or none); "
-        "thorough adds every single and double fault placement on a fixed "
-        "6-line job; non-trivial = >=1 corrupted transmission; distinct by SHA-1")
+        "both tiers place single and adjacent double faults on a fixed 6-line job "
+        "(thorough: every pair), and priority commands between two corrupted "
+        "transmissions of the first lines; non-trivial = >=1 corrupted transmission; distinct by SHA-1")
 ASSUMPTIONS = [
     "thread interleavings inside printcore are the OS's; the harness controls "
     "when each firmware reply becomes readable and which transmissions are "
@@ -35,7 +36,9 @@ ASSUMPTIONS = [
     "in the Marlin dialects); every received line is answered",
     "a job that is neither finished nor making progress for 3 s with nothing "
     "pending is a deadlock (violation); an exhausted time budget while still "
-    "progressing is inconclusive",
+    "progressing is inconclusive unless the recorded history ends in >= 60 "
+    "numbered transmissions, all after the last corrupted one, none of which "
+    "the firmware accepted (livelock: resend requests are not being served)",
 ]
 TECHNIQUE = ("fault-injection property testing (Hypothesis jobs x corruption "
              "patterns x reply latencies) of the real sender against a "
